@@ -8,6 +8,7 @@ package main
 // and the local server are decided by the linearizability acceptor of the driver.
 
 import (
+	"encoding/binary"
 	"fmt"
 	"io/ioutil"
 	"log"
@@ -367,6 +368,111 @@ func childSdStress(a []string) string {
 	return "ok"
 }
 
+// sd.evrace <iterations>: in a child process.  Every iteration the hosting server registers and
+// enables a service locally while a remote client tries to unregister the id that service will get.
+// A third connection receives serviceAdded and serviceRemoved on ONE queue, in the order they arrive
+// on the wire.  Whatever the interleaving, for one id the events are nothing at all (unregistered
+// while it was staged) or added then removed: the state changes and their events are one step each.
+func childSdEvRace(a []string) string {
+	var n int
+	fmt.Sscanf(a[0], "%d", &n)
+	w, res := sdNew()
+	if res != "ok" {
+		return res
+	}
+	defer w.close()
+	ep, err := qnet.DialEndPoint(w.addr)
+	if err != nil {
+		return "setup-error:dial " + err.Error()
+	}
+	defer ep.Close()
+	if err := bus.AuthenticateUser(ep, "", ""); err != nil {
+		return "setup-error:auth " + err.Error()
+	}
+	cl := bus.NewClient(bus.NewContext(ep))
+	meta, err := bus.GetMetaObject(cl, 1, 1)
+	if err != nil {
+		return "setup-error:meta " + err.Error()
+	}
+	addedID, err := meta.SignalID("serviceAdded", "(Is)")
+	if err != nil {
+		return "setup-error:signal " + err.Error()
+	}
+	removedID, err := meta.SignalID("serviceRemoved", "(Is)")
+	if err != nil {
+		return "setup-error:signal " + err.Error()
+	}
+	queue := make(chan *qnet.Message, 1<<16)
+	ep.MakeHandler(func(h *qnet.Header) (bool, bool) {
+		return h.Type == qnet.Event && h.Service == 1 && (h.Action == addedID || h.Action == removedID), true
+	}, queue, func(error) {})
+	obj := bus.MakeObject(bus.NewProxy(cl, meta, 1, 1))
+	if _, err := obj.RegisterEvent(1, addedID, 7001); err != nil {
+		return "setup-error:register " + err.Error()
+	}
+	if _, err := obj.RegisterEvent(1, removedID, 7002); err != nil {
+		return "setup-error:register " + err.Error()
+	}
+	// the next id: one registration to learn where the counter stands
+	first, err := w.sd.RegisterService(sdInfo("probe", "m", "1", "1", 0))
+	if err != nil {
+		return "setup-error:probe " + err.Error()
+	}
+	w.sd.UnregisterService(first)
+	next := first + 1
+	for i := 0; i < n; i++ {
+		done := make(chan struct{})
+		var wg sync.WaitGroup
+		wg.Add(2)
+		go func() {
+			defer wg.Done()
+			defer close(done)
+			s, err := w.srv.NewService(fmt.Sprintf("race%d", i), sdNoop{})
+			if err == nil {
+				s.Terminate()
+			}
+		}()
+		go func(id uint32) {
+			defer wg.Done()
+			for {
+				select {
+				case <-done:
+					return
+				default:
+				}
+				if w.sd.UnregisterService(id) == nil {
+					return
+				}
+			}
+		}(next)
+		wg.Wait()
+		next++
+	}
+	// everything emitted has been written before the answer to this call
+	w.sd.Services()
+	time.Sleep(50 * time.Millisecond)
+	seq := map[uint32][]string{}
+	for len(queue) > 0 {
+		m := <-queue
+		if len(m.Payload) < 4 {
+			return "fail:event without id"
+		}
+		id := binary.LittleEndian.Uint32(m.Payload)
+		kind := "added"
+		if m.Header.Action == removedID {
+			kind = "removed"
+		}
+		seq[id] = append(seq[id], kind)
+	}
+	for id, ev := range seq {
+		s := strings.Join(ev, ",")
+		if s != "added,removed" {
+			return fmt.Sprintf("fail:service %d events %s", id, s)
+		}
+	}
+	return "ok"
+}
+
 var sdLastHistory string
 
 func init() {
@@ -388,6 +494,21 @@ func init() {
 		lastFailDetail = out.Stderr
 		if out.Result == "crash-noresult" {
 			return "crash"
+		}
+		return out.Result
+	}
+	children["sd.evrace"] = childSdEvRace
+	executors["sd.evrace"] = func(a []string) string {
+		out := runChild("sd.evrace", strings.Join(a, " "), 120*time.Second, 0)
+		if out.Result != "ok" {
+			lastFailDetail = out.Stderr
+		}
+		if out.Result == "crash-noresult" {
+			return "crash"
+		}
+		if strings.HasPrefix(out.Result, "fail:") {
+			lastFailDetail = out.Result
+			return "fail"
 		}
 		return out.Result
 	}
@@ -526,6 +647,16 @@ func runC15(r *Rand, tier string, o *Out) {
 			o.Fail("directory under concurrent local and remote operations: "+strings.SplitN(out, " ", 2)[0], "sd.stress 300 => "+out+" "+tail(lastFailDetail, 300))
 		}
 		o.Count("stress")
+	}
+	races := 2
+	if tier == "thorough" {
+		races = 10
+	}
+	for i := 0; i < races; i++ {
+		if out := o.Do("P", "sd.evrace 400", true); out != "ok" {
+			o.Fail("a state change of the directory and its event are not one step: "+out, "sd.evrace 400 => "+out+" "+tail(lastFailDetail, 300))
+		}
+		o.Count("event-order races")
 	}
 	hists := 40
 	if tier == "thorough" {
